@@ -88,7 +88,7 @@ def tryput (q : Mq) (m : WMsg) : Option (Mq × Option Get) :=
     | [] => if q.items.length < q.cap then some ({ q with items := q.items ++ [m] }, none) else none
 
 /-- mq_sendable / mq_recvable as nni_msgq_run_notify leaves them -/
-def sendable (q : Mq) : Bool := decide (q.items.length < q.cap) || !q.getq.isEmpty
+def sendable (q : Mq) : Bool := q.putq.isEmpty && (decide (q.items.length < q.cap) || !q.getq.isEmpty)
 def recvable (q : Mq) : Bool := q.items.length != 0 || !q.putq.isEmpty
 
 def cancelPut (q : Mq) (tag : Nat) : Mq × Option Put :=
